@@ -94,7 +94,12 @@ impl OutputFormat for IcyDraw {
             }
         }
 
-        if !buf.palette.is_default() {
+        let default_palette = Palette::dos_default();
+        if !buf.palette.is_default()
+            || buf.palette.title != default_palette.title
+            || buf.palette.author != default_palette.author
+            || buf.palette.description != default_palette.description
+        {
             let pal_data = buf.palette.export_palette(&crate::PaletteFormat::Ice);
             let palette_data = general_purpose::STANDARD.encode(pal_data);
             if let Err(err) = encoder.add_ztxt_chunk("PALETTE".to_string(), palette_data) {
